@@ -484,7 +484,7 @@ func (o *Obligation) Solve(s *Solver) {
 	q := o.Query()
 	if o.Kind == "vacuity" {
 		// must be satisfiable; a short timeout suffices, unknown is accepted as "not refuted"
-		o.Res = s.CheckT(o.Name, q, false, minDur(s.Timeout, 3*time.Second))
+		o.Res = s.CheckT(o.Name, q, false, minDur(s.Timeout, 2*time.Second))
 		return
 	}
 	o.Res = s.Check(o.Name, q, false)
